@@ -108,10 +108,23 @@ func Unpack(any *anypb.Any, fileResolver protodesc.Resolver, typeResolver protor
 	}
 
 	packedMsg := typ.New().Interface()
-	err = any.UnmarshalTo(packedMsg)
+	err = unmarshalTo(any, packedMsg)
 	if err != nil {
 		return nil, fmt.Errorf("cannot unmarshal msg %s: %w", any.TypeUrl, err)
 	}
 
 	return packedMsg, nil
+}
+
+// unmarshalTo decodes the value of any into msg. The value is untrusted input:
+// a decoder that panics on it (the reflection-based decoder used for dynamicpb
+// messages does so for some malformed map entries) must not take the caller
+// down, so a panic is reported as an error like any other malformed value.
+func unmarshalTo(any *anypb.Any, msg proto.Message) (err error) {
+	defer func() {
+		if r := recover(); r != nil {
+			err = fmt.Errorf("malformed value: %v", r)
+		}
+	}()
+	return any.UnmarshalTo(msg)
 }
